@@ -19,6 +19,7 @@ mod c11l2;
 mod c05l2;
 mod c03l2;
 mod c04h;
+mod c04sys;
 mod c15l2;
 mod c19;
 mod consts;
@@ -106,11 +107,12 @@ fn main() {
         "c05l2" => c05l2::run(&a),
         "c03l2" => c03l2::run(&a),
         "c04h" => c04h::run(&a),
+        "c04sys" => c04sys::run(&a),
         "c15l2" => c15l2::run(&a),
         "c19" => c19::run(&a),
         "c06core" => coregen::run(&a, "C06", "C06core", &["c06"]),
         "c18core" => coregen::run(&a, "C18", "CoreMix", &["c18"]),
-        "c10core" => coregen::run(&a, "C10", "CoreMix", &["c10"]),
+        "c10core" => coregen::run(&a, "C10", "C10core", &["c10"]),
         "coremix" => coregen::run(&a, "CORE", "CoreMix", &["mix", "c07", "c03", "c04", "c05", "c08", "c09", "c11", "c13", "c20"]),
         "c03" => coregen::run(&a, "C03", "C03", &["c03"]),
         "c07" => coregen::run(&a, "C07", "C07", &["c07", "c07", "mix"]),
